@@ -14,10 +14,11 @@ TAGS = ('DS', 'RS', 'RZ', 'RR')
 REFLEN = 100000
 
 
-def header():
+def header(L=None):
     import pysam
+    L = L or REFLEN
     return pysam.AlignmentHeader.from_dict({'HD': {'VN': '1.6', 'SO': 'unsorted'},
-                                            'SQ': [{'SN': 'chr1', 'LN': REFLEN}, {'SN': 'chr2', 'LN': REFLEN}]})
+                                            'SQ': [{'SN': 'chr1', 'LN': L}, {'SN': 'chr2', 'LN': L}]})
 
 
 def make_read(h, spec, name, idx, paired):
@@ -91,7 +92,7 @@ def run_case(h, case, classes):
 
 def write_bam(lib, path):
     import pysam
-    h = header()
+    h = header(lib.get('L'))
     recs = []
     for n, case in enumerate(lib['cases']):
         specs = case['reads']
@@ -138,7 +139,17 @@ def run_cli(lib):
     path = os.path.join(d, 'cli%d.bam' % lib['id'])
     outp = os.path.join(d, 'cli%d.tagged.bam' % lib['id'])
     write_bam(lib, path)
-    tm.run_multiome_tagging_cmd([path, '-method', lib['kind'], '-o', outp] + list(lib['flags']))
+    flags = list(lib['flags'])
+    if lib.get('ref') is not None:      # reference FASTA for -method nla_no_overhang (both header contigs)
+        fa = os.path.join(d, 'cli%d.fa' % lib['id'])
+        with open(fa, 'w') as f:
+            for name in ('chr1', 'chr2'):
+                f.write('>%s\n' % name)
+                for i in range(0, len(lib['ref']), 60):
+                    f.write(lib['ref'][i:i + 60] + '\n')
+        pysam.faidx(fa)
+        flags += ['-ref', fa]
+    tm.run_multiome_tagging_cmd([path, '-method', lib['kind'], '-o', outp] + flags)
     res = {}
     with pysam.AlignmentFile(outp) as f:
         for r in f:
@@ -182,13 +193,68 @@ def run_mol(scen, classes, molclasses):
     return {'molecules': mols, 'tags': tags}
 
 
+def run_xcases(xcases, classes):
+    """extension stream: NlaIIIFragment(no_overhang=True, reference=CachedFastaNoHandle(<fasta on disk>)) and
+    max_fragment_size.  case = {'kind': 'nla'|'chic'|'nla_no', 'cfg': kwargs, 'reads': [r1, r2?], 'ref': contig | None}
+    every no_overhang case gets its own contig in one FASTA file; the handle is the class the tagger uses"""
+    import pysam
+    out = []
+    refs = [(i, c['ref']) for i, c in enumerate(xcases) if c.get('ref') is not None]
+    handle, names = None, {}
+    d = os.environ.get('SCMO_SCRATCH', '.')
+    if refs:
+        from singlecellmultiomics.fastaProcessing import CachedFastaNoHandle
+        fa = os.path.join(d, 'xref.fa')
+        seen = {}
+        with open(fa, 'w') as f:
+            for i, seq in refs:
+                if seq not in seen:
+                    seen[seq] = 'c%05d' % len(seen)
+                    f.write('>%s\n%s\n' % (seen[seq], seq))
+                names[i] = seen[seq]
+        pysam.faidx(fa)
+        handle = CachedFastaNoHandle(fa)
+        order = sorted(seen.values())
+        hx = pysam.AlignmentHeader.from_dict({'HD': {'VN': '1.6', 'SO': 'unsorted'},
+                                              'SQ': [{'SN': n, 'LN': len(s)} for s, n in sorted(seen.items(), key=lambda kv: kv[1])]})
+        rid = {n: k for k, n in enumerate(order)}
+    h0 = header()
+    for i, case in enumerate(xcases):
+        try:
+            specs = case['reads']
+            paired = len(specs) > 1 and all(s is not None for s in specs)
+            kw = dict(case['cfg'])
+            if case['kind'] == 'nla_no':
+                h = hx if i in names else h0
+                kw['no_overhang'] = True
+                if i in names:
+                    kw['reference'] = handle
+            else:
+                h = h0
+            reads = [None if s is None else make_read(h, s, 'q', k, paired or k == 1) for k, s in enumerate(specs)]
+            if i in names:
+                for r in reads:
+                    if r is not None:
+                        r.reference_id = rid[names[i]]
+            cls = classes['nla' if case['kind'] == 'nla_no' else case['kind']]
+            frag = cls(reads, **kw)
+            loc = frag.site_location
+            out.append({'reads': [observe_read(r) for r in reads], 'valid': bool(frag.is_valid()),
+                        'site_location': None if loc is None else [loc[0], loc[1]],
+                        'strand': frag.strand, 'cut_site_strand': frag.cut_site_strand,
+                        'match_hash': None if frag.match_hash is None else [x for x in frag.match_hash]})
+        except BaseException as e:
+            out.append({'error': '%s: %s' % (type(e).__name__, e)})
+    return out
+
+
 def handler(p):
     from singlecellmultiomics.fragment import NlaIIIFragment, CHICFragment
     from singlecellmultiomics.molecule import NlaIIIMolecule, CHICMolecule
     classes = {'nla': NlaIIIFragment, 'chic': CHICFragment}
     molclasses = {'nla': NlaIIIMolecule, 'chic': CHICMolecule}
     h = header()
-    out, bams, mols, clis = [], [], [], []
+    out, bams, mols, clis, xs = [], [], [], [], []
     old = sys.stdout
     sys.stdout = io.StringIO()
     try:
@@ -212,9 +278,14 @@ def handler(p):
                 mols.append(run_mol(scen, classes, molclasses))
             except BaseException as e:
                 mols.append({'error': '%s: %s' % (type(e).__name__, e)})
+        if p.get('x'):
+            try:
+                xs = run_xcases(p['x'], classes)
+            except BaseException as e:
+                xs = [{'error': 'extension stream: %s: %s' % (type(e).__name__, e)} for _ in p['x']]
     finally:
         sys.stdout = old
-    return {'cases': out, 'bam': bams, 'mol': mols, 'cli': clis}
+    return {'cases': out, 'bam': bams, 'mol': mols, 'cli': clis, 'x': xs}
 
 
 if __name__ == '__main__':
